@@ -37,7 +37,7 @@ def expectedPins : List (String × List String) := [
   ("fmp4PickLeadingTrack", ["1c8fec0d014713f9"]),
   ("findFirstPartTrackOfLeadingTrack", ["2bb7fd75aa060dbc"]),
   ("findTimeScaleOfLeadingTrack", ["85f8749fc2e183db"]),
-  ("clientStreamProcessorFMP4.run", ["b25342f715ab4df2", "536bbd6fdc442c2c", "7a82726277b650f3", "267a9e4212574dcf"]),
+  ("clientStreamProcessorFMP4.run", ["b25342f715ab4df2", "536bbd6fdc442c2c", "58af94543df442ed", "123729b57b835024"]),
   ("clientStreamProcessorFMP4.processSegment", ["2a497942e04fede6"]),
   ("clientStreamProcessorFMP4.initializeTrackProcessors", ["75c37fc75a806c4b"]),
   ("mpegtsPickLeadingTrack", ["01552debe7b205e2"]),
@@ -50,7 +50,7 @@ def expectedPins : List (String × List String) := [
 /-- flags (F9 repaired, F8 repaired) that go with each admissible pin of `run` -/
 def runFlags : List (String × (Bool × Bool)) := [
   ("b25342f715ab4df2", (false, false)), ("536bbd6fdc442c2c", (true, false)),
-  ("7a82726277b650f3", (false, true)), ("267a9e4212574dcf", (true, true))]
+  ("58af94543df442ed", (false, true)), ("123729b57b835024", (true, true))]
 
 /-- Every pinned function has one of the shapes the model mirrors, nothing is missing, and the repair flags
     agree with the shape of `run`. -/
